@@ -558,7 +558,36 @@ class OpaqueJson(Plugin):
         if not self.is_json(base): return None
         b = unit.expr(base); f = b if me.get('isArrow') else unit.addr_text(b)
         if me['name'] == 'contains': return 'v_json_contains(%s)' % f
+        if me['name'] == 'is_object': return 'v_json_is_object(%s)' % f      # any answer; the question is remembered (ghost) so that a contract can refer to it
+        if me['name'] in ('is_array', 'is_string', 'is_number', 'is_null', 'is_boolean', 'empty'): return 'v_json_is(%s)' % f      # any answer
+        if me['name'] == 'value' and len(args) == 2 and unit.is_intlike(args[1]):
+            # nlohmann value(key, default): throws type_error.302 when the key is present with a value of another type
+            unit.stmt_may_throw = True
+            return 'v_json_value_int(%s, %s)' % (f, unit.expr(args[1]))
         raise Unsupported('Json::%s (in %s)' % (me['name'], unit.cur))
+    def range_for(self, unit, n, ind):
+        # for (auto &item : json_array): any number of rounds, each with some element
+        ks = [c for c in n.get('inner', []) if c.get('kind')]
+        body = ks[-1]; loopvar = None; rng = None
+        for c in ks[:-1]:
+            if c['kind'] == 'DeclStmt':
+                for v in unit.kids(c):
+                    if v.get('kind') != 'VarDecl': continue
+                    if v.get('name', '').startswith('__range'): rng = v
+                    elif not v.get('name', '').startswith('__'): loopvar = v
+        if rng is None or loopvar is None or not self.is_json(unit.strip_tmp(unit.kids(rng)[0])): return False
+        p = '  ' * ind
+        unit.loop_no += 1; ln = unit.loop_no
+        unit.w(p + '{')
+        unit.w(p + '  size_t __n%d = v_json_size(%s), __i%d = 0;' % (ln, unit.addr_of(unit.strip_tmp(unit.kids(rng)[0])), ln))
+        unit.ghost('before_loop:%d' % ln, p + '  ')
+        unit.w(p + '  for (; __i%d < __n%d; ++__i%d)' % (ln, ln, ln))
+        unit.loopc(ln, p + '  ')
+        unit.local_names[loopvar['id']] = (loopvar['name'], True)
+        unit.loop_body(body, ind + 1, ln, first_stmt='struct v_json *%s = v_json_index(%s);' % (loopvar['name'], unit.addr_of(unit.strip_tmp(unit.kids(rng)[0]))))
+        unit.ghost('after_loop:%d' % ln, p + '  ')
+        unit.w(p + '}')
+        return True
     def operator_call(self, unit, n, rd, args):
         if rd.get('name') == 'operator[]' and args and self.is_json(args[0]):
             return '(*v_json_index(%s))' % unit.addr_of(args[0])
